@@ -4,7 +4,7 @@ from lib import vf
 
 ID = "C12"
 PROP_FILE = "Props/C12.v"
-CONSTS = ["protocol_compat"]
+CONSTS = ["protocol_compat", "max_before_context"]
 RULE = ("real client constructors (grep/cat/tail) -> makeCommands -> SendMessage bytes -> real ServerHandler.Write up to the "
         "command callback (+ regex.Deserialize as readCommand.Start does): hostile patterns (blanks anywhere, ':;,%=', "
         "'base64%', printf verbs, non-ASCII, no-op patterns), both flags, before/after/max from the int range incl. "
@@ -12,13 +12,13 @@ RULE = ("real client constructors (grep/cat/tail) -> makeCommands -> SendMessage
         "protocol metacharacter or a non-default option; distinct by the whole request")
 TRUSTED = ["Coq 8.16.1 kernel + VM", "encoding/base64, strconv.Atoi, regexp.Compile, mapr.NewQuery as per-case oracle tables computed by the harness",
            "Go harness dverif codec + add-only overlay exports (VerifCommands, VerifDecode)", "harness/constgen (ProtocolCompat)"]
-ASSUMPTIONS = ["file paths contain no blank and no comma (the client splits --files at commas)",
+ASSUMPTIONS = ["a before context above maxBeforeContext is refused with an error message (explicitly, never misread)", "file paths contain no blank and no comma (the client splits --files at commas)",
                "base64 and strconv behave as their hypotheses in C12_roundtrip state"]
 
 PATS = ["ERROR", "ERROR ", " ERROR", "a b", "a  b", " ", "  ", "\t", "50%", "%d", "%s %v", "a%%b", "x;y", "a:b", "regex:invert x",
         "k=v", "a,b", "base64%Zm9v", "=", ":", ";", ",", "%", "café", "€uro", "日本", ".", ".*", "", "..", "^$", "foo$", "[[:alpha:]]+",
         "\\|MAPREDUCE:STATS\\|", "a|b", "(x)", "protocol 4.1 base64 Zm9v;", "noop", "default x", "x regex:default y", "\\s", "-", "--max", "=1:before=2"]
-INTS = [0, 0, 1, 2, 3, 10, -1, -2, 7, 100, 2147483647, -2147483648, 4611686018427387904, 9223372036854775807, -9223372036854775808]
+INTS = [0, 0, 1, 2, 3, 10, -1, -2, 7, 100, 1000000, 1000001, 2147483647, -2147483648, 4611686018427387904, 9223372036854775807, -9223372036854775808]
 
 
 def generate(rng, tier):
@@ -79,18 +79,22 @@ def judge(cases, obs, tier):
             continue
         pat = bytes.fromhex(c["regex"]) if c["tool"] != "cat" else b""
         files = bytes.fromhex(c["files"]).split(b",")
-        dec = o["decoded"]
+        dec = o["decoded"] or []
         if c["tool"] == "map":
             err = _judge_map(c, o, files)
             if err:
                 oracle[i] = err
-            dec = o["decoded"]
+            dec = o["decoded"] or []
             pat = None
         want_flag = 3 if pat in NOOP else (2 if c["invert"] and c["tool"] != "cat" else 1)
         want_pat = b"" if pat in NOOP else pat
         # ---- property oracle on the implementation's decoding ----
         if pat is None:
             pass
+        elif c["before"] > vf.consts()["max_before_context"]["i"]:
+            # refused outright (C10 fix): an error message per command, nothing decoded, nothing misread
+            if len(dec) != 0 or o["messages"] != len(files):
+                oracle[i] = "before=%d is above the bound but %d commands were decoded, %d error messages" % (c["before"], len(dec), o["messages"])
         elif len(dec) != len(files) or o["messages"] != 0:
             oracle[i] = "%d commands decoded for %d files, %d error messages" % (len(dec), len(files), o["messages"])
         else:
@@ -118,7 +122,7 @@ def judge(cases, obs, tier):
             oread.append(_read_obs(d))
         terms.append("(%s, %s, %s, %s, %s, %s, %s, %d)" % (b64t, atoit, rxt, qt, vf.cq_bytes(stream), vf.cq_list(odec), vf.cq_list(oread), o["messages"]))
         idx.append(i)
-    fails, errs = vf.coq_eval_sharded("From DT Require Import Lib.Bytes Model.Proto.", terms, "codec_agree", per_shard=120)
+    fails, errs = vf.coq_eval_sharded("From DT Require Import Lib.Bytes Model.Proto.", terms, "codec_agree", per_shard=120, case_type="codec_case")
     errors += errs
     for f in fails:
         model[idx[f]] = "Coq model run_session differs from the implementation's decoding"
@@ -128,7 +132,7 @@ def judge(cases, obs, tier):
 def _judge_map(c, o, files):
     """dmap sends 'map <query>' first (no options), then one 'cat:<options> <file> <regex>' per file: the output
     modes of the session must still be the requested ones and the regex the table filter."""
-    dec = o["decoded"]
+    dec = o["decoded"] or []
     query = bytes.fromhex(c["query"])
     if len(dec) != len(files) + 1 or o["messages"] != 0:
         return "%d commands decoded for a query and %d files, %d error messages" % (len(dec), len(files), o["messages"])
